@@ -631,6 +631,166 @@ theorem repeated_time_adjacent_redundancy :
 
 end Global
 
+/-! ## … and true for strictly increasing histories -/
+
+section Chronological
+variable {α : Type}
+
+/-- the last element, else `prev`. -/
+def lastOr (l : List α) (prev : Option α) : Option α :=
+  match l.getLast? with
+  | some y => some y
+  | none => prev
+
+theorem adjFree_append (red : α → α → Bool) (prev : Option α) (l : List α) (p : α) :
+    adjFree red prev (l ++ [p]) =
+      (adjFree red prev l && (match lastOr l prev with | some q => !red p q | none => true)) := by
+  induction l generalizing prev with
+  | nil => cases prev <;> simp [adjFree, lastOr]
+  | cons x xs ih =>
+    have hl : ∀ pr : Option α, lastOr (x :: xs) pr = lastOr xs (some x) := by
+      intro pr; simp only [lastOr, List.getLast?_cons]; cases xs.getLast? <;> rfl
+    cases prev with
+    | none => simp only [List.cons_append, adjFree, ih, hl]
+    | some q => simp only [List.cons_append, adjFree, ih, hl, Bool.and_assoc]
+
+/-- one list, one chronological `add`: the new point is appended, and it differs from the point it
+follows because that is the point `add` compared it with. -/
+theorem chrono_step (key : α → Int) (red : α → α → Bool) (dflt : Option α) (l : List α) (p : α)
+    (hlt : ∀ y ∈ l, key y < key p) (hfree : adjFree red dflt l = true)
+    (hnr : (match lastOr l dflt with | some q => red p q | none => false) = false) :
+    adjFree red dflt (insertOrReplace key p l) = true := by
+  rw [insertOrReplace_append hlt, adjFree_append, hfree]
+  cases h : lastOr l dflt with
+  | none => rfl
+  | some q => rw [h] at hnr; simp only at hnr; simp [hnr]
+
+variable {F : Type} [Scalar F]
+
+def Op.key : Op F → Int
+  | .timing p => p.key
+  | .difficulty p => p.key
+  | .effect p => p.key
+  | .sample p => p.key
+
+/-- every stored key is below `b`. -/
+structure KeysBelow (cp : ControlPoints F) (b : Int) : Prop where
+  t : ∀ p ∈ cp.timingPoints, p.key < b
+  d : ∀ p ∈ cp.difficultyPoints, p.key < b
+  e : ∀ p ∈ cp.effectPoints, p.key < b
+  s : ∀ p ∈ cp.samplePoints, p.key < b
+
+theorem keysBelow_apply {cp : ControlPoints F} {op : Op F} {b : Int}
+    (h : KeysBelow cp b) (hop : op.key < b) : KeysBelow (apply cp op) b := by
+  cases op with
+  | timing p =>
+    refine ⟨?_, h.d, h.e, h.s⟩
+    intro q hq
+    rcases mem_insertOrReplace hq with rfl | hq
+    · exact hop
+    · exact h.t q hq
+  | difficulty p =>
+    show KeysBelow (cp.addDifficulty p) b
+    unfold ControlPoints.addDifficulty
+    split
+    · exact h
+    · refine ⟨h.t, ?_, h.e, h.s⟩
+      intro q hq
+      rcases mem_insertOrReplace hq with rfl | hq
+      · exact hop
+      · exact h.d q hq
+  | effect p =>
+    show KeysBelow (cp.addEffect p) b
+    unfold ControlPoints.addEffect
+    split
+    · exact h
+    · refine ⟨h.t, h.d, ?_, h.s⟩
+      intro q hq
+      rcases mem_insertOrReplace hq with rfl | hq
+      · exact hop
+      · exact h.e q hq
+  | sample p =>
+    show KeysBelow (cp.addSample p) b
+    unfold ControlPoints.addSample
+    split
+    · exact h
+    · refine ⟨h.t, h.d, h.e, ?_⟩
+      intro q hq
+      rcases mem_insertOrReplace hq with rfl | hq
+      · exact hop
+      · exact h.s q hq
+
+theorem noAdj_apply {cp : ControlPoints F} {op : Op F}
+    (hb : KeysBelow cp op.key) (hn : NoAdjacentRedundancy cp) : NoAdjacentRedundancy (apply cp op) := by
+  obtain ⟨hd, he, hs⟩ := hn
+  cases op with
+  | timing p => exact ⟨hd, he, hs⟩
+  | difficulty p =>
+    show NoAdjacentRedundancy (cp.addDifficulty p)
+    unfold ControlPoints.addDifficulty
+    split
+    · exact ⟨hd, he, hs⟩
+    · rename_i hex
+      refine ⟨chrono_step _ _ _ _ _ hb.d hd ?_, he, hs⟩
+      have hex' : cp.difficultyExists p = false := by simpa using hex
+      unfold ControlPoints.difficultyExists ControlPoints.difficultyPointAt at hex'
+      rw [show Scalar.totalKey p.time = p.key from rfl, lookupChecked_beyond_last (show ∀ y ∈ cp.difficultyPoints, y.key < p.key from hb.d)] at hex'
+      unfold lastOr
+      cases hl : cp.difficultyPoints.getLast? <;> rw [hl] at hex' <;> exact hex'
+  | effect p =>
+    show NoAdjacentRedundancy (cp.addEffect p)
+    unfold ControlPoints.addEffect
+    split
+    · exact ⟨hd, he, hs⟩
+    · rename_i hex
+      refine ⟨hd, chrono_step _ _ _ _ _ hb.e he ?_, hs⟩
+      have hex' : cp.effectExists p = false := by simpa using hex
+      unfold ControlPoints.effectExists ControlPoints.effectPointAt at hex'
+      rw [show Scalar.totalKey p.time = p.key from rfl, lookupChecked_beyond_last (show ∀ y ∈ cp.effectPoints, y.key < p.key from hb.e)] at hex'
+      unfold lastOr
+      cases hl : cp.effectPoints.getLast? <;> rw [hl] at hex' <;> exact hex'
+  | sample p =>
+    show NoAdjacentRedundancy (cp.addSample p)
+    unfold ControlPoints.addSample
+    split
+    · exact ⟨hd, he, hs⟩
+    · rename_i hex
+      refine ⟨hd, he, chrono_step _ _ _ _ _ hb.s hs ?_⟩
+      have hex' : cp.sampleExists p = false := by simpa using hex
+      unfold ControlPoints.sampleExists at hex'
+      rw [show Scalar.totalKey p.time = p.key from rfl, lookupChecked_beyond_last (show ∀ y ∈ cp.samplePoints, y.key < p.key from hb.s)] at hex'
+      unfold lastOr
+      cases hl : cp.samplePoints.getLast? <;> rw [hl] at hex' <;> exact hex'
+
+theorem chrono_applyOps (cp : ControlPoints F) (ops : List (Op F))
+    (hinc : (ops.map Op.key).Pairwise (· < ·)) (hb : ∀ op ∈ ops, KeysBelow cp op.key)
+    (hn : NoAdjacentRedundancy cp) : NoAdjacentRedundancy (applyOps cp ops) := by
+  induction ops generalizing cp with
+  | nil => exact hn
+  | cons op rest ih =>
+    rw [List.map_cons, List.pairwise_cons] at hinc
+    refine ih (apply cp op) hinc.2 ?_ (noAdj_apply (hb op (List.mem_cons_self ..)) hn)
+    intro op' hop'
+    exact keysBelow_apply (hb op' (List.mem_cons_of_mem _ hop'))
+      (hinc.1 _ (List.mem_map_of_mem hop'))
+
+/-- **chronological_no_adjacent_redundancy**: when the points are added in strictly increasing order of
+(the key of) their times, no stored difficulty / effect / sample point repeats its predecessor, and the
+first difficulty / effect point does not repeat the default. (Strictness matters:
+`repeated_time_adjacent_redundancy`.) -/
+theorem chronological_no_adjacent_redundancy (ops : List (Op F))
+    (hinc : (ops.map Op.key).Pairwise (· < ·)) :
+    NoAdjacentRedundancy (applyOps (ControlPoints.empty : ControlPoints F) ops) := by
+  refine chrono_applyOps _ ops hinc ?_ ⟨rfl, rfl, rfl⟩
+  intro op _
+  exact ⟨fun _ h => (by cases h), fun _ h => (by cases h), fun _ h => (by cases h), fun _ h => (by cases h)⟩
+
+/-- non-vacuity: a strictly increasing history with content. -/
+example : (([.difficulty ⟨⟨0⟩, ⟨2⟩, true⟩, .sample ⟨⟨1⟩, .soft, 50, 0⟩, .difficulty ⟨⟨2⟩, ⟨3⟩, true⟩] :
+    List (Op Z)).map Op.key).Pairwise (· < ·) := by decide
+
+end Chronological
+
 /-! ## non-vacuity: the hypotheses of the theorems above are satisfiable with content -/
 
 section Examples
